@@ -111,7 +111,7 @@ add(kind="sync", scope="thread", tags=["t0", "x"], events=["e0"], family="group"
 
 # signature shapes
 shapes = [
-    [], ["u32"], ["String"], ["str"], ["char", "bool"], ["i64", "str"], ["String", "String"], ["SS"],
+    [], ["u32"], ["String"], ["str"], ["char", "bool"], ["i64", "str"], ["String", "String"], ["SS"], ["SSstr"], ["SSmix"],
     ["optu32", "vecu8"], ["tup", "char", "u32"], ["u32", "i64", "String", "bool"], ["f64", "u32"], ["vecu8"], ["str", "str", "char"],
 ]
 for sig in shapes:
@@ -221,9 +221,10 @@ for i, f in enumerate(FNS):
     # arguments
     sig = f["sig"]
     params, args_expr, tables = [], [], []
-    if sig == ["SS"]:
+    if sig in (["SS"], ["SSstr"], ["SSmix"]):
+        kinds = {"SS": ("String", "String"), "SSstr": ("str", "str"), "SSmix": ("String", "str")}[sig[0]]
         for j in range(2):
-            tables.append(("String", SPECIAL_SS[j], 1, 0))
+            tables.append((kinds[j], SPECIAL_SS[j], 1, 0))
         nkeys = 8
     else:
         for j, t in enumerate(sig):
@@ -250,7 +251,7 @@ for i, f in enumerate(FNS):
         decl_params.append("&mut self")
         repr_parts.append("&*self")
     for j, (t, alph, mul, off) in enumerate(tables):
-        ty = "String" if t in ("String",) or sig == ["SS"] else ARG[t][0]
+        ty = "String" if t == "String" else ARG[t][0]
         pname = f"a{j}"
         decl_params.append(f"{pname}: {ty}")
         repr_parts.append(f"&{pname}")
